@@ -8,7 +8,9 @@ from ..driver import call
 from ..history import Run, draw_op
 from ..oracle.schema import schema
 from ..run import hyp_search, mix
-from .c01 import enum_histories
+import itertools
+
+from .c01 import enum_histories, enum_word_removals
 
 RULE = ('(a) bounded-exhaustive: ALL histories of <=3 ops over add / remove / dot-None / to_string on a deterministic '
         'symbol subset of every type; (b) Hypothesis-drawn adaptive histories over the full op set incl. failing ops, '
@@ -111,7 +113,8 @@ def shards(ctx):
 def run_shard(ctx, shard, acc):
     if shard['mode'] == 'exh':
         for t, els in shard['types']:
-            for ops in enum_histories(t, 3, 5 if ctx.quick else 6):
+            for ops in itertools.chain(enum_histories(t, 3, 8 if ctx.quick else 12),
+                                       enum_word_removals(t, 4, 150 if ctx.quick else 1500)):
                 run, f = execute(els[0], ops + [['to_string', 1]])
                 if run.e is None:
                     break
